@@ -98,18 +98,47 @@ Theorem C05_fusion_gqa_values_partial : forall (A : Type) (d0 : A)
 Proof. exact gqa23_rule_sound. Qed.
 Print Assumptions C05_fusion_gqa_values_partial.
 
-Theorem C05_fusion_gqa_side_condition : forall h, gqa_fires h = true ->
-  gqa_fires_impl h = true /\
-  (exists e, gh_expand_key h = Some e /\ length e = 5) /\ (exists e, gh_expand_value h = Some e /\ length e = 5) /\
-  (gh_is_causal h = None \/ gh_is_causal h = Some 0%Z).
-Proof. exact gqa_fires_shapes. Qed.
-Print Assumptions C05_fusion_gqa_side_condition.
+(* the same without positivity hypotheses (no head exists when Hkv = 0 or G = 0) *)
+Theorem C05_fusion_gqa_values_total_partial : forall (A : Type) (d0 : A)
+  (attn : list (list A) -> list (list A) -> list (list A) -> option (list (list A)) -> list (list A))
+  B S T Hkv G Dh q kseq vseq mask,
+  gqa23_host A d0 attn B S T Hkv G Dh q kseq vseq mask = gqa23_fused A d0 attn B S T Hkv G Dh q kseq vseq mask.
+Proof. exact gqa23_rule_sound_total. Qed.
+Print Assumptions C05_fusion_gqa_values_total_partial.
 
-(* the check as read (seven check_shape calls) also accepts an Expand that repeats the heads in the other order and an
-   Attention with is_causal = 1: findings C05:fusion:gqa:expand-shape-not-checked, C05:fusion:gqa:is-causal-carried *)
+(* check-sufficiency: the SHIPPED check of _gqa.py (after commit aa8c462: is_causal absent or 0; the seven operand shapes; the
+   Expand results [B,Hkv,G,T,D]; H, Hkv, G static with H = Hkv * G) establishes exactly the operand layouts that
+   C05_fusion_gqa_values(_total)_partial is about *)
+Theorem C05_fusion_gqa_check_sufficient : forall h, gqa_fires h = true ->
+  exists B H S D Hkv P T G,
+    gh_query h = Some [B; H; S; D] /\ gh_key h = Some [B; Hkv; S; D] /\ gh_value h = Some [B; Hkv; S; D] /\
+    gh_past_key h = Some [B; Hkv; P; D] /\ gh_past_value h = Some [B; Hkv; P; D] /\
+    gh_present_key h = Some [B; H; T; D] /\ gh_present_value h = Some [B; H; T; D] /\
+    gh_expand_key h = Some [B; Hkv; G; T; D] /\ gh_expand_value h = Some [B; Hkv; G; T; D] /\
+    (0 <= H /\ 0 <= Hkv /\ 0 <= G /\ H = Hkv * G)%Z /\
+    (gh_is_causal h = None \/ gh_is_causal h = Some 0%Z).
+Proof. exact gqa_shipped_check_sufficient. Qed.
+Print Assumptions C05_fusion_gqa_check_sufficient.
+
+Theorem C05_fusion_gqa_shipped_refines_legacy : forall h, gqa_fires h = true -> gqa_fires_impl h = true.
+Proof. exact gqa_shipped_refines_legacy. Qed.
+Print Assumptions C05_fusion_gqa_shipped_refines_legacy.
+
+(* witness about the OLD check (legacy = true: the seven check_shape calls only, before aa8c462): it accepted an Expand that
+   repeats the heads in the other order and an Attention with is_causal = 1; the shipped check (legacy = false) refuses both.
+   Findings C05:fusion:gqa:expand-shape-not-checked, C05:fusion:gqa:is-causal-carried (fixed) *)
 Theorem C05_fusion_gqa_impl_check_refuted :
-  gqa_fires (gqa_witness [1; 2; 2; 5; 8]%Z None) = true /\
-  gqa_fires_impl (gqa_witness [2; 1; 2; 1; 5; 8]%Z None) = true /\ gqa_fires (gqa_witness [2; 1; 2; 1; 5; 8]%Z None) = false /\
-  gqa_fires_impl (gqa_witness [1; 2; 2; 5; 8]%Z (Some 1%Z)) = true /\ gqa_fires (gqa_witness [1; 2; 2; 5; 8]%Z (Some 1%Z)) = false.
-Proof. exact gqa_impl_check_insufficient. Qed.
+  gqa_fires_v false (gqa_witness [1; 2; 2; 5; 8]%Z None) = true /\
+  gqa_fires_v true (gqa_witness [2; 1; 2; 1; 5; 8]%Z None) = true /\ gqa_fires_v false (gqa_witness [2; 1; 2; 1; 5; 8]%Z None) = false /\
+  gqa_fires_v true (gqa_witness [1; 2; 2; 5; 8]%Z (Some 1%Z)) = true /\ gqa_fires_v false (gqa_witness [1; 2; 2; 5; 8]%Z (Some 1%Z)) = false.
+Proof. exact gqa_legacy_check_insufficient. Qed.
 Print Assumptions C05_fusion_gqa_impl_check_refuted.
+
+(* the exponent test before cf408b5 (legacy = true, math.isclose) accepted exponents other than 2; the shipped test
+   (legacy = false) is the exact one of C05_fusion_layer_norm / C05_fusion_rms_norm and implies the legacy one *)
+Theorem C05_fusion_pow_exponent_legacy_refuted :
+  sq_ok true (SqPowF 200001 100000) = true /\ sq_ok false (SqPowF 200001 100000) = false /\
+  sq_ok true (SqPowF 2001 1000) = false /\ sq_ok true (SqPowF 4 2) = true /\ sq_ok false (SqPowF 4 2) = true /\
+  (forall s, sq_ok false s = true -> sq_ok true s = true).
+Proof. exact pow_exponent_legacy_refuted. Qed.
+Print Assumptions C05_fusion_pow_exponent_legacy_refuted.
